@@ -21,6 +21,20 @@ def memop(facts, **kw):
     return ("agg", "adt:" + MEMOP, 0, tuple(kw[n] for n in names))
 
 
+def deep_strip(t):
+    """width annotations and value-preserving (zero-extending / same-width) casts removed everywhere in a term, so that
+    `scale as u64`, `u64::from(scale)` with scale: u32 or u8 are the same addend; factors of a product in a fixed order"""
+    t = U.strip(t)
+    if t[0] == "bin":
+        a, b = deep_strip(t[2]), deep_strip(t[3])
+        if t[1] in ("Mul", "Add", "BitAnd", "BitOr", "BitXor") and repr(a) > repr(b):
+            a, b = b, a
+        return ("bin", t[1], a, b, t[4])
+    if t[0] == "cast":
+        return ("cast", deep_strip(t[1])) + t[2:]
+    return t
+
+
 def addends(t):
     """flatten a wrapping sum into a sorted list of stripped addends"""
     t = U.strip(t)
@@ -28,7 +42,7 @@ def addends(t):
         return addends(t[2]) + addends(t[3])
     if A.is_int(t) and t[1] == 0:
         return []
-    return [t]
+    return [deep_strip(t)]
 
 
 def trunc32_inner(p):
@@ -147,6 +161,7 @@ def formula(ctx):
                     if hi:
                         exp.append(("bin", "Mul", A.W(("reg", abits, INDEX, 0), 64), ("cast", scale, 32, False, 64), 64))
                     exp.append(("disp",))
+                    exp = [deep_strip(x) for x in exp]
                     exps = sorted(map(repr, exp))
                     segs = []
                     if seg == "FS":
@@ -365,6 +380,14 @@ def plumbing(ctx):
             ck.violation("C05.plumb", fname, err)
             continue
         g = U.strip(got)
+        narrow = 64
+        while g[0] in ("cast", "w"):
+            if g[0] == "cast":
+                narrow = min(narrow, g[4])
+            g = U.strip(g[1])
+        # the scale is 1, 2, 4 or 8 (iced): any integer type of at least 4 bits holds it; the displacement needs all 64
+        if narrow < (4 if fname == "scale" else 64):
+            g = ("narrowed", narrow)
         if g[0] == "ret" and g[1] == "iced_x86::Instruction::" + acc and g[2] == (P.INSTR,):
             ck.ok("C05.plumb", fname)
         else:
